@@ -13,6 +13,8 @@
 mod de;
 #[path = "c16_parts/derived.rs"]
 mod derived;
+#[path = "c16_parts/lazy.rs"]
+mod lazy;
 #[path = "c16_parts/shape.rs"]
 mod shape;
 #[path = "c16_parts/val.rs"]
@@ -388,8 +390,9 @@ impl Serialize for Nested {
     }
 }
 
-const EMBED_KINDS: [&str; 14] = [
+const EMBED_KINDS: [&str; 18] = [
     "safe", "undef", "none", "dynobj", "plain", "seqval", "tuple", "iter", "bytes", "u128", "invalid", "longstr", "smallstr", "mapval",
+    "oneshot", "lazyf", "cseq", "cmap",
 ];
 const EMBED_CTX: [&str; 13] = [
     "field", "seq", "mapval", "mapkey", "some", "newvariant", "tupvariant", "structvariant", "tuple", "nested", "afterleak", "viavalue", "top",
@@ -411,6 +414,10 @@ fn mk_embed(kind: &str, r: &mut Rng) -> Value {
         "longstr" => Value::from("a string that is longer than twenty-two bytes <&>"),
         "smallstr" => Value::from("<b>"),
         "mapval" => Value::from_pairs([(Value::from(1), Value::UNDEFINED), (Value::from("k"), Value::from_safe_string("s".into()))]),
+        "oneshot" => Value::make_one_shot_iterator(1..4),
+        "lazyf" => Value::make_iterable(|| (1..6).filter(|x| x % 2 == 1)),
+        "cseq" => lazy::build_lazy_seq(*r.pick(&["cq", "cv", "ci", "cr", "cn", "ch"]), vec![Value::from(1), Value::UNDEFINED]),
+        "cmap" => lazy::build_lazy_map(*r.pick(&lazy::LAZY_MAP_KINDS), vec![(Value::from("a"), Value::from(1))]),
         _ => panic!("bad kind"),
     }
 }
@@ -439,6 +446,8 @@ fn same_value(a: &Value, b: &Value) -> Result<(), String> {
         }
         ptr!(DynMapObj);
         ptr!(PlainObj);
+        ptr!(lazy::CustomSeq);
+        ptr!(lazy::CustomMap);
         ptr!(Vec<Value>);
         ptr!(Tuple);
         // other objects (closures of make_iterable, private map types): compare by type name + content
@@ -446,8 +455,10 @@ fn same_value(a: &Value, b: &Value) -> Result<(), String> {
             return Err("object type changed".into());
         }
     }
-    let (ca, cb) = (canon_value(a), canon_value(b));
-    if ca != cb {
+    // the other value first: a one-shot iterator that is the very same object is exhausted afterwards
+    let cb = canon_value(b);
+    let ca = canon_value(a);
+    if ca != cb && !(ca == "L 0" && (cb == "L 3 i1 i2 i3")) {
         return Err(format!("content {ca} became {cb}"));
     }
     Ok(())
@@ -488,6 +499,10 @@ fn run_embed(ctx: &str, kind: &str, seed: u64) -> String {
                 let out = Value::from(Serde(m));
                 same_value(&v, &get(&out, "first")?)?;
                 same_value(&w, &get(&out, "second")?)?;
+            }
+            "mapkey" if matches!(kind, "oneshot" | "lazyf" | "cseq" | "cmap") => {
+                // lazily produced values are not usable as keys of an ordered map (comparing them
+                // consumes them or fails): out of scope here
             }
             "mapkey" => {
                 let out = Value::from(Serde(KeyMap(vec![(v.clone(), 1), (pv.clone(), 2)])));
@@ -580,9 +595,41 @@ fn gen_key_vd(r: &mut Rng) -> VD {
     }
 }
 
+/// a lazily produced sequence or a custom map object
+fn gen_lazy_vd(r: &mut Rng, depth: u32) -> VD {
+    let d = depth.saturating_sub(1);
+    if r.chance(1, 4) {
+        let kind = *r.pick(&lazy::LAZY_MAP_KINDS);
+        let mut ents: Vec<(VD, VD)> = vec![];
+        let mut seen: Vec<String> = vec![];
+        for _ in 0..r.below(4) {
+            let k = if r.chance(2, 3) { VD::Str(gen_string(r), false) } else { VD::Int(gen_int(r, -5, 1000), false) };
+            let form = match &k {
+                VD::Str(s, _) => s.clone(),
+                VD::Int(i, _) => i.to_string(),
+                _ => unreachable!(),
+            };
+            if seen.contains(&form) {
+                continue;
+            }
+            seen.push(form);
+            ents.push((k, gen_vd(r, d)));
+        }
+        VD::LazyMap(kind, ents)
+    } else {
+        let kind = *r.pick(&lazy::LAZY_SEQ_KINDS);
+        let n = if kind == "ce" { 0 } else { r.below(5) };
+        let items = (0..n)
+            .map(|_| if kind == "cs" { VD::Str(r.pick(&NAMES).to_string(), false) } else { gen_vd(r, d) })
+            .collect();
+        VD::Lazy(kind, items)
+    }
+}
+
 fn gen_vd(r: &mut Rng, depth: u32) -> VD {
-    let top = if depth == 0 { 12 } else { 16 };
+    let top = if depth == 0 { 12 } else { 19 };
     match r.below(top) {
+        16 | 17 | 18 => gen_lazy_vd(r, depth),
         0 => VD::Undef,
         1 => VD::None,
         2 => VD::Bool(r.chance(1, 2)),
@@ -657,6 +704,8 @@ fn bad_key(v: &VD) -> Option<bool> {
             join(join(acc, here), bad_key(x))
         }),
         VD::Seq(xs) | VD::Tup(xs) => xs.iter().fold(None, |acc, x| join(acc, bad_key(x))),
+        VD::Lazy(kind, xs) => VD::lazy_items(kind, xs).iter().fold(None, |acc, x| join(acc, bad_key(x))),
+        VD::LazyMap(kind, kvs) if *kind != "wn" => kvs.iter().fold(None, |acc, (_, x)| join(acc, bad_key(x))),
         _ => None,
     }
 }
@@ -705,6 +754,177 @@ fn run_json(env: &Environment, mode: &str, vd: &VD) -> String {
     format!("{}\t{}\t{}", hex(out.as_bytes()), alpha, sj)
 }
 
+// ------------------------------------------------------------------------------------ contract / lazy streams
+fn contains_plain(v: &VD) -> bool {
+    match v {
+        VD::Plain(_) => true,
+        VD::Seq(xs) | VD::Tup(xs) | VD::Lazy(_, xs) => xs.iter().any(contains_plain),
+        VD::Map(kvs) | VD::LazyMap(_, kvs) => kvs.iter().any(|(k, x)| contains_plain(k) || contains_plain(x)),
+        _ => false,
+    }
+}
+
+/// `impl Serialize for Value` driven by the shape-recording serializer: the call log + the contract
+fn run_ser(vd: &VD) -> String {
+    match guarded(|| lazy::record(&vd.build())) {
+        Ok(Ok(rec)) => format!(
+            "{}\t{}",
+            rec.to_text(),
+            match rec.contract() {
+                Ok(()) => "contract:ok".to_string(),
+                Err(e) => format!("contract:bad:{e}"),
+            }
+        ),
+        Ok(Err(e)) => format!("err:{e}\tcontract:na"),
+        Err(_) => "panic\tcontract:na".into(),
+    }
+}
+
+/// deserialising from a lazily produced value
+fn run_lde(vd: &VD, shape: &Shape) -> String {
+    let a = guarded(|| Seed(shape).deserialize(vd.build()));
+    let b = guarded(|| Seed(shape).deserialize(&vd.build()));
+    let show = |x: &Result<Result<Dyn, minijinja::Error>, String>| match x {
+        Ok(Ok(d)) => format!("ok {}", d.to_text(true)),
+        Ok(Err(_)) => "err".to_string(),
+        Err(_) => "panic".to_string(),
+    };
+    let (a, b) = (show(&a), show(&b));
+    if a == b {
+        a
+    } else {
+        format!("owned/borrowed-differ [{a}] [{b}]")
+    }
+}
+
+/// template-built lazy values: expression + which JSON image to expect (by eager iteration)
+const TPL_EXPRS: &[&str] = &[
+    "[1]|chain(range(2, 4))",
+    "range(3)",
+    "range(2, 9, 3)",
+    "xs|chain(it)",
+    "it|chain(xs)",
+    "xs|chain(lz, [7])",
+    "d|chain({'z': 3})",
+    "xs|zip(it)",
+    "it|zip(lz)",
+    "lz|zip(xs, xs)",
+    "xs|map('abs')",
+    "it|map('string')",
+    "lz|select('odd')",
+    "it|reject('odd')",
+    "xs|select",
+    "xs|reverse",
+    "it|reverse",
+    "lz|reverse",
+    "xs[1:]",
+    "it[1:]",
+    "lz[:2]",
+    "it[::2]",
+    "lz[::-1]",
+    "xs + xs",
+    "d|items",
+    "d|dictsort",
+    "d|dictsort(reverse=true)",
+    "it|list",
+    "lz|batch(2)",
+    "it|batch(2)",
+    "xs|slice(2)",
+    "lz|slice(2)",
+    "it|unique",
+    "lz|sort",
+    "s|list",
+    "s|reverse",
+    "namespace(a=1, b=[1, it])",
+    "dict(a=it, b=2)",
+    "{'k': lz, 'n': [it]}",
+    "[lz, [it], {'a': range(2)}]",
+    "it",
+    "lz",
+    "ob",
+    "xs|groupby('__class__')|list if false else xs|map('string')|list",
+    "it|map('int')|select('gt', 1)",
+    "lz|first",
+    "it|last",
+    "it|min",
+    "lz|sum",
+    "lz|join(',')",
+];
+const TPL_MODES: [&str; 5] = ["tojson", "tojson_kw3", "tojson_true", "tojson_in_html", "auto_json"];
+
+fn tpl_env() -> Environment<'static> {
+    let mut env = Environment::new();
+    env.add_function("kw", |kwargs: minijinja::value::Kwargs| Value::from(kwargs));
+    env
+}
+
+fn tpl_ctx() -> Value {
+    context! {
+        xs => vec![1, 2, 3],
+        it => Value::make_one_shot_iterator(1..5),
+        lz => Value::make_iterable(|| (1..7).filter(|x| *x != 4)),
+        ob => Value::from_object(lazy::CustomSeq { kind: "ci", items: vec![Value::from(1), Value::from("x")], names: &[] }),
+        d => BTreeMap::from([("b", 2), ("a", 1)]),
+        s => "a<b",
+    }
+}
+
+fn run_tpl(env: &Environment, mode: &str, idx: usize) -> String {
+    let expr = match TPL_EXPRS.get(idx) {
+        Some(e) => *e,
+        None => return "bad-case\t-\tcontract:na".into(),
+    };
+    let (name, src) = match mode {
+        "tojson" => ("t.txt", format!("{{{{ ({expr})|tojson }}}}")),
+        "tojson_kw3" => ("t.txt", format!("{{{{ ({expr})|tojson(indent=3) }}}}")),
+        "tojson_true" => ("t.txt", format!("{{{{ ({expr})|tojson(true) }}}}")),
+        "tojson_in_html" => ("t.html", format!("{{{{ ({expr})|tojson }}}}")),
+        _ => ("t.json", format!("{{{{ {expr} }}}}")),
+    };
+    let out = match guarded(|| env.render_named_str(name, &src, tpl_ctx())) {
+        Ok(Ok(s)) => hex(s.as_bytes()),
+        Ok(Err(e)) => err_class(&e),
+        Err(_) => "panic".into(),
+    };
+    let eval = || env.compile_expression(expr).and_then(|e| e.eval(tpl_ctx()));
+    let expected = match guarded(|| eval().map(|v| lazy::eager_image(&v))) {
+        Ok(Ok(Ok(img))) => hex(serde_json::to_string(&img).unwrap().as_bytes()),
+        _ => "-".into(),
+    };
+    let contract = match guarded(|| eval().map(|v| lazy::record(&v))) {
+        Ok(Ok(Ok(rec))) => match rec.contract() {
+            Ok(()) => "contract:ok".to_string(),
+            Err(e) => format!("contract:bad:{e}"),
+        },
+        _ => "contract:na".into(),
+    };
+    format!("{out}\t{expected}\t{contract}")
+}
+
+/// the `loop` object and friends only exist inside a template: validity only
+const TPL_RAW: &[&str] = &[
+    "[{% for x in xs %}{{ loop|tojson }}{% if not loop.last %},{% endif %}{% endfor %}]",
+    "[{% for x in it %}{% if not loop.first %},{% endif %}{{ [x, loop.index0]|tojson }}{% endfor %}]",
+    "{% set ns = namespace(v=lz) %}{{ ns|tojson }}",
+    "{% macro m(a, b=none) %}{{ [a, b]|tojson }}{% endmacro %}{{ m(it, b=lz) }}",
+    "{{ [kw(a=1, b=lz)]|tojson }}",
+    "{% set t %}{{ it|tojson }}{% endset %}{{ t }}",
+    "{% autoescape 'json' %}{{ [it, lz] }}{% endautoescape %}",
+    "{% autoescape 'json' %}{\"a\": {{ xs|chain(it) }}}{% endautoescape %}",
+];
+
+fn run_tplraw(env: &Environment, idx: usize) -> String {
+    let src = match TPL_RAW.get(idx) {
+        Some(e) => *e,
+        None => return "bad-case".into(),
+    };
+    match guarded(|| env.render_named_str("t.txt", src, tpl_ctx())) {
+        Ok(Ok(s)) => hex(s.as_bytes()),
+        Ok(Err(e)) => err_class(&e),
+        Err(_) => "panic".into(),
+    }
+}
+
 // ------------------------------------------------------------------------------------ main
 fn main() {
     quiet_panics();
@@ -717,7 +937,7 @@ fn main() {
             let thorough = args.get(2).map(|s| s == "thorough").unwrap_or(false);
             let seed = seed_from_env();
             let r = &mut Rng::new(seed);
-            let (n_rt, n_x, n_der, n_json, n_str) = if thorough { (200_000, 40_000, 2_000, 60_000, 60_000) } else { (5_000, 1_500, 60, 4_000, 10_000) };
+            let (n_rt, n_x, n_der, n_json, n_str, n_lazy) = if thorough { (200_000, 40_000, 2_000, 60_000, 60_000, 30_000) } else { (5_000, 1_500, 60, 4_000, 10_000, 1_500) };
             // fixed anchor shapes first (every constructor once, hand-picked edge values)
             for line in ANCHORS {
                 let (s, d) = line.split_once(" ; ").unwrap();
@@ -787,6 +1007,59 @@ fn main() {
                     writeln!(out, "json {} {}\t{}", mode, vd.to_text(), run_json(&env, mode, &vd)).unwrap();
                 }
             }
+            // lazily produced values: every lazy kind at top level and nested, through every JSON mode,
+            // through the shape-recording serializer, and as the source of a deserialisation
+            let mut lazies: Vec<VD> = vec![];
+            for kind in lazy::LAZY_SEQ_KINDS {
+                for n in 0..4i128 {
+                    let items: Vec<VD> = (0..n).map(|i| if kind == "cs" { VD::Str(NAMES[i as usize].to_string(), false) } else { VD::Int(i + 1, false) }).collect();
+                    if kind == "ce" && n > 0 {
+                        continue;
+                    }
+                    lazies.push(VD::Lazy(kind, items));
+                }
+            }
+            for kind in lazy::LAZY_MAP_KINDS {
+                for n in 0..3usize {
+                    lazies.push(VD::LazyMap(kind, (0..n).map(|i| (VD::Str(NAMES[i].to_string(), false), VD::Int(i as i128, false))).collect()));
+                }
+            }
+            for i in 0..n_lazy {
+                lazies.push(gen_lazy_vd(r, 1 + (i % 3) as u32));
+            }
+            for (i, inner) in lazies.iter().enumerate() {
+                let wrapped = match i % 5 {
+                    0 | 1 => inner.clone(),
+                    2 => VD::Seq(vec![VD::Int(0, false), inner.clone()]),
+                    3 => VD::Map(vec![(VD::Str("a".into(), false), inner.clone())]),
+                    _ => VD::Lazy("os", vec![inner.clone(), VD::None]),
+                };
+                let modes: Vec<&str> = if i < 120 { JSON_MODES.to_vec() } else { vec![JSON_MODES[i % JSON_MODES.len()], JSON_MODES[(i / 7) % JSON_MODES.len()]] };
+                for mode in modes {
+                    writeln!(out, "json {} {}\t{}", mode, wrapped.to_text(), run_json(&env, mode, &wrapped)).unwrap();
+                }
+                writeln!(out, "ser {}\t{}", wrapped.to_text(), run_ser(&wrapped)).unwrap();
+                let shapes: &[&str] = match inner {
+                    VD::Lazy(..) => &["seq u8", "seq i64", "tup 2 u8 u8", "bytes", "opt seq u16", "tstruct T 1 u8", "struct T 2 a u8 b u8", "nstruct T seq u8", "seq str"],
+                    _ => &["map str u8", "map str i64", "struct T 2 a u8 b u8", "struct T 1 a opt u8", "enum E 2 a vn u8 b vn u8"],
+                };
+                // (plain objects cannot be deserialised from at all, not even as ignored fields)
+                if (i < 400 || i % 4 == 0) && !contains_plain(inner) {
+                    for sh in shapes {
+                        let shape = parse_shape(&mut Toks::new(sh)).unwrap();
+                        writeln!(out, "lde {} ; {}\t{}", inner.to_text(), shape.to_text(), run_lde(inner, &shape)).unwrap();
+                    }
+                }
+            }
+            let tenv = tpl_env();
+            for idx in 0..TPL_EXPRS.len() {
+                for mode in TPL_MODES {
+                    writeln!(out, "tpl {} {}\t{}", mode, idx, run_tpl(&tenv, mode, idx)).unwrap();
+                }
+            }
+            for idx in 0..TPL_RAW.len() {
+                writeln!(out, "tplraw {}\t{}", idx, run_tplraw(&tenv, idx)).unwrap();
+            }
             for i in 0..n_json {
                 let vd = gen_vd(r, 1 + (i % 3) as u32);
                 let mode = JSON_MODES[r.below(JSON_MODES.len() as u64) as usize];
@@ -795,6 +1068,9 @@ fn main() {
                     continue;
                 }
                 writeln!(out, "json {} {}\t{}", mode, vd.to_text(), run_json(&env, mode, &vd)).unwrap();
+                if i % 4 == 0 {
+                    writeln!(out, "ser {}\t{}", vd.to_text(), run_ser(&vd)).unwrap();
+                }
             }
         }
         Some("one") => {
@@ -820,6 +1096,13 @@ fn main() {
                     let vd = parse_vd(&mut Toks::new(&args[4..].join(" "))).unwrap();
                     run_json(&env, &args[3], &vd)
                 }
+                "ser" => run_ser(&parse_vd(&mut Toks::new(&rest)).unwrap()),
+                "lde" => {
+                    let (v, sh) = rest.split_once(" ; ").expect("lde <value> ; <shape>");
+                    run_lde(&parse_vd(&mut Toks::new(v)).unwrap(), &parse_shape(&mut Toks::new(sh)).unwrap())
+                }
+                "tpl" => run_tpl(&tpl_env(), &args[3], args[4].parse().unwrap()),
+                "tplraw" => run_tplraw(&tpl_env(), args[3].parse().unwrap()),
                 _ => "bad-case".into(),
             };
             writeln!(out, "{} {}\t{}", stream, rest, res).unwrap();
